@@ -368,6 +368,10 @@ func genWModels(rng *rand.Rand, n int) []*Model {
 			ms[i] = GenCycleWeb(rng)
 			continue
 		}
+		if i%8 == 3 {
+			ms[i] = GenNestedOps(rng)
+			continue
+		}
 		if k := rng.Intn(10); k < 2 {
 			ms[i] = GenGraphModel(rng)
 		} else if k < 4 {
@@ -567,27 +571,29 @@ func init() {
 			if bad {
 				continue
 			}
-			// permuted commutative operands: relation weights unchanged
-			pm2 := permuteOperands(rng, wc.m)
-			r2 := realWBuild(pm2.Proto())
-			if (r2.Err != "") != (ref.Err != "") {
-				if !(wc.kf && c.Known.Open("KF-C04-operand-grouping")) {
-					c.OracleFail("c06:operand-order", map[string]any{"model": wc.canon, "permuted": canonModel(pm2.Proto())}, "permuting union/intersection operands changes the verdict", ref.Err+" / "+r2.Err)
-				} else {
-					c.KnownHit("KF-C04-operand-grouping", map[string]any{"model": wc.canon, "permuted": canonModel(pm2.Proto())})
-				}
-			} else if ref.Err == "" {
-				for n, w := range ref.Weights {
-					if strings.Contains(n, "@") {
-						continue
+			// permuted commutative operands: relation weights unchanged (three permutations)
+			for pk := 0; pk < 3; pk++ {
+				pm2 := permuteOperands(rng, wc.m)
+				r2 := realWBuild(pm2.Proto())
+				if (r2.Err != "") != (ref.Err != "") {
+					if !(wc.kf && c.Known.Open("KF-C04-operand-grouping")) {
+						c.OracleFail("c06:operand-order", map[string]any{"model": wc.canon, "permuted": canonModel(pm2.Proto())}, "permuting union/intersection operands changes the verdict", ref.Err+" / "+r2.Err)
+					} else {
+						c.KnownHit("KF-C04-operand-grouping", map[string]any{"model": wc.canon, "permuted": canonModel(pm2.Proto())})
 					}
-					if sortedWeights(w) != sortedWeights(r2.Weights[n]) {
-						if wc.kf && c.Known.Open("KF-C04-operand-grouping") {
-							c.KnownHit("KF-C04-operand-grouping", map[string]any{"model": wc.canon, "permuted": canonModel(pm2.Proto())})
-						} else {
-							c.OracleFail("c06:operand-order", map[string]any{"model": wc.canon, "permuted": canonModel(pm2.Proto()), "relation": n}, "permuting union/intersection operands changes a relation's weights", "")
+				} else if ref.Err == "" {
+					for n, w := range ref.Weights {
+						if strings.Contains(n, "@") {
+							continue
 						}
-						break
+						if sortedWeights(w) != sortedWeights(r2.Weights[n]) {
+							if wc.kf && c.Known.Open("KF-C04-operand-grouping") {
+								c.KnownHit("KF-C04-operand-grouping", map[string]any{"model": wc.canon, "permuted": canonModel(pm2.Proto())})
+							} else {
+								c.OracleFail("c06:operand-order", map[string]any{"model": wc.canon, "permuted": canonModel(pm2.Proto()), "relation": n}, "permuting union/intersection operands changes a relation's weights", "")
+							}
+							break
+						}
 					}
 				}
 			}
